@@ -168,8 +168,17 @@ class FDCheck(SubCheck):
         tol = 2e-5 if case["mode"] == "autodiff" else 2e-4
         if self.excited and max(Z) > 10:
             tol = max(tol, 2e-4)
+        if self.excited:
+            # excited-state forces go through iterative response solves (analytical z-vector, implicit SCF adjoint for
+            # scf_backward=1): accuracy is set by their tolerances, not by autodiff exactness. Largest deviation measured on
+            # the unchanged tree 1.9e-5 (PM3 NF3, CIS S3, scf_backward=1); bound 2e-4 keeps a 10x margin and is 30x below
+            # the smallest real evaluator defect seen (6e-3).
+            tol = max(tol, 2e-4, 100.0 * case["exc"].get("tol", 1e-9))
+            labels.append("exc_tol:%g" % case["exc"].get("tol", 1e-9))
         worst = 0.0
         nontrivial = False
+        batch_checked = False
+        bva = 0.0
         for d in case["dirs"]:
             d = np.array(d, dtype=float).reshape(n, 3)
             d = d - d.mean(axis=0)  # remove net translation (energy is exactly invariant; keeps |F.d| meaningful)
@@ -185,6 +194,10 @@ class FDCheck(SubCheck):
                 try:
                     r = _run_rows(case, rows, xb, extra=self._extra(case))
                 except Exception as e:
+                    if "A-B matrix has negative eigenvalues" in str(e):
+                        # RPA is undefined for an unstable reference (A-B not positive definite); the code says so loudly.
+                        # Reached by strongly distorted batch members; C16 owns the stability clause.
+                        return Outcome.inconclusive("rpa_unstable_reference", labels)
                     return Outcome.fail(_bucket("exception", case, Z, xb), f"{type(e).__name__}: {e}", labels)
                 if notconv(r).any():
                     return Outcome.inconclusive("scf_not_converged", labels)
@@ -193,6 +206,31 @@ class FDCheck(SubCheck):
                 msg = _padding_force_violation(r, rows)
                 if msg:
                     return Outcome.fail(f"padding_force:{case['mol']['method']}:{case['mode']}", msg, labels)
+                if recentre == 0 and len(rows) > 1 and not batch_checked:
+                    # the force must be the gradient in EVERY layout: a member's force inside the batch equals the force of
+                    # the same member computed alone (whose FD agreement is what the single-layout cases establish).
+                    # Measured on the unchanged tree for adaptive/fixed mixing: <= 1e-12; Pulay's batch-global DIIS restart
+                    # is C05's subject and is skipped here.
+                    batch_checked = True
+                    if case["solver"]["conv"][0] != 2:
+                        for bi, rw in enumerate(rows):
+                            if bi == 0:
+                                rw = (rw[0], xb, rw[2], rw[3])
+                            ra = _run_rows(case, [rw], extra=self._extra(case))
+                            if notconv(ra).any():
+                                continue
+                            Fa = tonp(ra.mol.force[0])[: len(rw[0])]
+                            Fb = tonp(r.mol.force[bi])[: len(rw[0])]
+                            dd = float(np.abs(Fa - Fb).max())
+                            # measured floor on the unchanged tree (fixed/adaptive mixing): <= 1.2e-10 for ground-state forces
+                            # (all layouts, RHF/UHF), <= 2.7e-10 for analytical / back-propagated excited-state forces at
+                            # every excited-state tolerance. 2e-8 is ~75x above that floor.
+                            btol = 2e-8
+                            if dd > btol:
+                                return Outcome.fail(_bucket("batch_member_force_differs_from_alone", case, Z, xb),
+                                                    f"member {bi} of {len(rows)}: max |F_in_batch - F_alone| = {dd:.3e} > {btol:.1e}", labels, True, batch_vs_alone=dd)
+                            labels.append("batch_vs_alone_compared")
+                            bva = max(bva, dd)
                 F = tonp(r.mol.force[0])[:n]
                 if not np.isfinite(F).all():
                     return Outcome.fail(_bucket("nan_force", case, Z, xb), "non-finite force with converged SCF", labels)
@@ -227,7 +265,7 @@ class FDCheck(SubCheck):
             worst = max(worst, err)
             if abs(slope) > 1e-3:
                 nontrivial = True
-        return Outcome.ok(nontrivial, labels, **{"fd_err_" + case["mode"]: worst})
+        return Outcome.ok(nontrivial, labels, **{"fd_err_" + case["mode"]: worst, "batch_vs_alone": bva})
 
     def simplify(self, case):
         if case.get("mates"):
@@ -344,7 +382,10 @@ def _hpp_clamped(method, Zs):
 @st.composite
 def _exc_case(draw):
     method = draw(st.sampled_from(M.METHODS_SP))
-    pool = [t for t in M.names(method, ("neutral",), 6, 2) if M.n_ov(t) >= 4]
+    # non-linear templates only: diatomics stay linear under every displacement and keep doubly degenerate excited
+    # states, for which "the force of S_k" is ill defined (the first version drew them and 29-62 % of the cases ended
+    # as inconclusive:excited_root_not_isolated -- a generator that rejects that much tests little)
+    pool = [t for t in M.names(method, ("neutral",), 6, 3) if M.n_ov(t) >= 4 and not M.is_linear(t)]
     tpl = draw(st.sampled_from(pool))
     n = len(M.ALL[tpl]["Z"])
     mol = {"method": method, "tpl": tpl, "amp": 0.08, "disp": draw(st.lists(S.q3, min_size=3 * n, max_size=3 * n))}
@@ -355,19 +396,35 @@ def _exc_case(draw):
     case["exc"] = {"method": em, "state": state, "n_states": min(state + 2, M.n_ov(tpl) // 2)}
     case["mode"] = draw(st.sampled_from(["analytical", "analytical", "autodiff"]))
     case["backward"] = draw(st.sampled_from([1, 2])) if case["mode"] == "autodiff" else 0
-    if draw(st.integers(0, 3)) == 0:
-        mm = dict(mol)
-        mm["disp"] = draw(st.lists(S.q3, min_size=3 * n, max_size=3 * n))
-        case["mates"] = [mm]
+    if draw(st.integers(0, 1)) == 0:
+        # homogeneous batch whose members differ in difficulty: iterative solvers that treat the batch as one unit
+        # (response equations of the analytical gradient, Davidson) then converge at different speeds per member
+        mates = []
+        for _ in range(draw(st.integers(2, 3))):
+            mm = dict(mol)
+            # amplitude = actual largest displacement component (the vector is scaled to unit max-norm): members range
+            # from nearly undistorted to strongly distorted. Measured: with members at 0.02 / 0.08 / 0.15 A + a stretched
+            # bond the clean tree agrees alone-vs-batch to 1.9e-10 at every excited-state tolerance, while a batch-global
+            # early exit of the response solver gives 1e-5 (tol 1e-9) .. 4e-4 (tol 1e-6).
+            mm["amp"] = draw(st.sampled_from([0.02, 0.15, 0.25] if em == "cis" else [0.02, 0.1, 0.15]))
+            dv = draw(st.lists(S.q3, min_size=3 * n, max_size=3 * n))
+            mx = max(1e-3, max(abs(v) for v in dv))
+            mm["disp"] = [round(v / mx, 3) for v in dv]
+            if em == "cis" and draw(st.integers(0, 2)) > 0:
+                mm["stretch"] = [0, 1, draw(st.sampled_from([0.9, 1.15, 1.25]))]
+            mates.append(mm)
+        case["mates"] = mates
         case["layout"] = "homog"
     case["solver"] = {"conv": [1], "sp2": [False], "eps": 1e-11}
+    # excited-state tolerance: the default 1e-6 is what users run (and where solver-coupling defects are largest)
+    case["exc"]["tol"] = draw(st.sampled_from([1e-6, 1e-7, 1e-9, 1e-9]))
     case["dirs"] = [draw(st.lists(S.q3, min_size=3 * n, max_size=3 * n))]
     return case
 
 
 class Excited(FDCheck):
     name = "excited"
-    budget = {"quick": 130, "thorough": 3000}
+    budget = {"quick": 200, "thorough": 4000}
     weight = 8.0
     excited = True
 
@@ -376,7 +433,7 @@ class Excited(FDCheck):
 
     def _extra(self, case):
         e = case["exc"]
-        ex = {"excited_states": {"method": e["method"], "n_states": e["n_states"], "tolerance": 1e-9},
+        ex = {"excited_states": {"method": e["method"], "n_states": e["n_states"], "tolerance": e.get("tol", 1e-9)},
               "active_state": e["state"], "scf_backward": case.get("backward", 0)}
         if case["mode"] == "autodiff":
             ex["scf_backward_eps"] = 1e-11
